@@ -43,6 +43,7 @@ type LCase struct {
 	Print    [][2]int64        `json:"print"`         // (rune, 0/1) for runes > 0xFF
 	Influx   string            `json:"influx"` // "" not applicable | "ok" | description of the disagreement
 	GoValid  bool              `json:"go_valid"`      // json.Valid(doc) && utf8.Valid(doc)
+	QuoteJSON bool             `json:"quote_json"` // would the document strconv.Quote wrote before the fix (value only cut at 100 bytes) have been JSON for the set
 	GoEqual  bool              `json:"go_equal"`      // ... and its members, in order, are exactly the sanitized pairs
 	Panic    string            `json:"panic,omitempty"`
 }
@@ -444,6 +445,18 @@ func observe(r *rand.Rand, c *LCase, raw [][]string) {
 		if c.GoValid {
 			c.GoEqual = membersEqual(doc, san)
 		}
+		var oldPairs [][]string
+		var oldParts []string
+		for i, kv := range raw {
+			v := kv[1]
+			if len(v) > 100 {
+				v = v[:100] + "..."
+			}
+			oldPairs = append(oldPairs, []string{san[i][0], v})
+			oldParts = append(oldParts, strconv.Quote(san[i][0])+":"+strconv.Quote(v))
+		}
+		oldDoc := []byte("{" + strings.Join(oldParts, ",") + "}")
+		c.QuoteJSON = json.Valid(oldDoc) && utf8.Valid(oldDoc) && membersEqual(oldDoc, oldPairs)
 	})
 	c.Panic = p
 }
